@@ -308,12 +308,25 @@ func opArgMapGo(a []string) string {
 	// one parsed document serves many requests with different variables: the map computed for a
 	// site must not depend on the variables an earlier call on the same node was given
 	other := perturbVars(vars)
-	for k, st := range collectSites(doc, executed) {
-		first := argMapObs(st.call, vars)
-		argMapObs(st.call, other)
-		argMapObs(st.call, map[string]interface{}{})
-		if again := argMapObs(st.call, vars); again != first {
-			return "HISTORY " + strconv.Itoa(k) + " " + HexW([]byte(first)) + " " + HexW([]byte(again))
+	if docB, _ := loadDoc(c, string(db)); docB != nil {
+		var executedB *ast.OperationDefinition
+		if idx >= 0 && idx < len(docB.Operations) {
+			executedB = docB.Operations[idx]
+		}
+		sitesB := collectSites(docB, executedB)
+		for k, st := range collectSites(doc, executed) {
+			if k >= len(sitesB) {
+				break
+			}
+			first := argMapObs(st.call, vars)
+			second := argMapObs(st.call, other)                             // the node has served `vars` before
+			if fresh := argMapObs(sitesB[k].call, other); fresh != second { // this node has not
+				return "HISTORY " + strconv.Itoa(k) + " " + HexW([]byte(fresh)) + " " + HexW([]byte(second))
+			}
+			argMapObs(st.call, map[string]interface{}{})
+			if again := argMapObs(st.call, vars); again != first {
+				return "HISTORY " + strconv.Itoa(k) + " " + HexW([]byte(first)) + " " + HexW([]byte(again))
+			}
 		}
 	}
 	for _, st := range collectSites(doc, executed) {
